@@ -179,8 +179,8 @@ func startE2EServer() (*e2eServer, error) {
 	s.srv = &gortsplib.Server{
 		Handler:      &e2eHandler{s: s},
 		RTSPAddress:  ":" + strconv.Itoa(s.port),
-		ReadTimeout:  3 * time.Second,
-		WriteTimeout: 3 * time.Second,
+		ReadTimeout:  10 * time.Second,
+		WriteTimeout: 10 * time.Second,
 	}
 	if err = s.srv.Start(); err != nil {
 		return nil, err
@@ -333,8 +333,28 @@ type e2eResult struct {
 	urlText string
 }
 
-// runE2E drives the real client through one case against the shared server.
+// transient reports errors that come from the machine (scheduling, sockets), not from the protocol.
+func transient(err string) bool {
+	for _, t := range []string{"timeout", "timed out", "connection reset", "broken pipe", "EOF", "connection refused", "deadline"} {
+		if strings.Contains(err, t) {
+			return true
+		}
+	}
+	return false
+}
+
+// runE2E drives the real client through one case against the shared server (a case that fails with a
+// transient network error is run again, at most twice).
 func (s *e2eServer) runE2E(c *E2ECase) *e2eResult {
+	r := s.runE2EOnce(c)
+	for i := 0; i < 2 && r.step != "" && transient(r.err); i++ {
+		time.Sleep(200 * time.Millisecond)
+		r = s.runE2EOnce(c)
+	}
+	return r
+}
+
+func (s *e2eServer) runE2EOnce(c *E2ECase) *e2eResult {
 	res := &e2eResult{urlText: c.resolved(s.port).String()}
 	u, err := base.ParseURL(res.urlText)
 	if err != nil {
@@ -354,8 +374,8 @@ func (s *e2eServer) runE2E(c *E2ECase) *e2eResult {
 		Scheme:       u.Scheme,
 		Host:         u.Host,
 		Protocol:     &tcp,
-		ReadTimeout:  3 * time.Second,
-		WriteTimeout: 3 * time.Second,
+		ReadTimeout:  10 * time.Second,
+		WriteTimeout: 10 * time.Second,
 	}
 	if !c.RealDial {
 		cl.DialContext = w.dialer("127.0.0.1:" + strconv.Itoa(s.port))
